@@ -45,6 +45,16 @@ def items(tier, seed):
                 for e in ([2, 3, 4, 5] if tier == "quick" else [1, 2, 3, 4, 5, 6, 8]):
                     out.append({"A": A, "B": None, "op": "pow", "n": e})
             out.append({"A": A, "B": A, "op": "self_div"})
+    for nm in names:
+        for A in rng.sample(pool[nm], min(len(pool[nm]), 2 if tier == "quick" else 10)):
+            B = rng.choice(pool[rng.choice(names)])
+            if n_leaves(A) + n_leaves(B) <= 5:
+                for o in ("dimless_div", "dimless_fdiv", "dimless_mul", "div_dimless"):
+                    out.append({"A": A, "B": B, "op": o})
+    for i in range(20 if tier == "quick" else 300):
+        A, B = rng.choice(pool[rng.choice(names)]), rng.choice(pool[rng.choice(names)])
+        if n_leaves(A) + n_leaves(B) <= 5 and "pow" not in json.dumps([A, B]):
+            out.append({"A": A, "B": B, "op": rng.choice(["mul", "div"]), "arr": rng.choice(["list", "numpy", "tuple"]), "fixed_right": True})
     for i, c in enumerate(out):
         if i % 5 == 0 and c["op"] in ("mul", "div", "self_div") and "pow" not in json.dumps(c):
             c["arr"] = ["numpy", "list", "tuple"][(i // 5) % 3]
@@ -57,7 +67,7 @@ def items(tier, seed):
 
 
 def inputs(cfg):
-    nb = n_leaves(cfg["B"]) if cfg["B"] is not None and cfg["op"] != "self_div" else 0
+    nb = n_leaves(cfg["B"]) if cfg["B"] is not None and cfg["op"] != "self_div" else 0  # (dimless_* ops use both operands)
     return {"x%d" % i: "real" for i in range(n_leaves(cfg["A"]) + nb)}
 
 
@@ -77,6 +87,17 @@ def run(cfg, V):
         r = A / A
         return {"A": _vq(A), "r": _vq(r), "cls": type(r).__name__}
     B = build(cfg["B"], V, ctr, cls)
+    if cfg.get("fixed_right"):
+        from barril.units import FixedArray
+
+        bv = B.GetAbstractValue()
+        B = FixedArray.CreateWithQuantity(B.GetQuantity(), [bv[0], bv[0]], dimension=2)
+        av = A.GetAbstractValue()
+        A = type(A).CreateWithQuantity(A.GetQuantity(), type(av)([av[0], av[0]]) if not hasattr(av, "dtype") else av.repeat(2) if av.dtype != object else type(av)([av[0], av[0]]))
+    if op.startswith("dimless") or op == "div_dimless":
+        one = A / A  # a dimensionless Scalar obtained by cancellation
+        r = {"dimless_div": lambda: one / B, "dimless_fdiv": lambda: one // B, "dimless_mul": lambda: one * B, "div_dimless": lambda: B / one}[op]()
+        return {"A": _vq(A), "B": _vq(B), "one": _vq(one), "r": _vq(r), "cls": type(r).__name__}
     out = {"A": _vq(A), "B": _vq(B)}
     if op == "mul":
         r = A * B
@@ -122,7 +143,7 @@ def props(cfg, T, obs):
     op = cfg["op"]
     mA, mr = mag_of(*obs["A"]), mag_of(*obs["r"])
     dA, dr = dims_of(obs["A"][1]), dims_of(obs["r"][1])
-    P = [("result is a Scalar (Array for Array operands)", obs["cls"] == ("Array" if cfg.get("arr") else "Scalar")), ("zero exponents disappear", _wellformed(obs["r"][1])),
+    P = [("result is a Scalar (Array / FixedArray for Array operands)", obs["cls"] == ("Array" if cfg.get("arr") else "Scalar")), ("zero exponents disappear", _wellformed(obs["r"][1])),
          ("operand dims match the dimensional model", dA == model_dims(cfg["A"]))]
     if op == "pow":
         n = cfg["n"]
@@ -135,6 +156,19 @@ def props(cfg, T, obs):
         P += [("a/a is dimensionless", dr == {} and obs["r"][1] == []), ("a/a = 1", approx(mr, 1))]
         return P
     mB, dB = mag_of(*obs["B"]), dims_of(obs["B"][1])
+    if op.startswith("dimless") or op == "div_dimless":
+        neg = {k: -v for k, v in dB.items()}
+        one = mag_of(*obs["one"])
+        if op == "dimless_mul":
+            P += [("(a/a)*b has b's dimension and magnitude", z3.And(z3.BoolVal(dr == dB), approx(mr, one * mB)))]
+        elif op == "div_dimless":
+            P += [("b/(a/a) has b's dimension and magnitude", z3.And(z3.BoolVal(dr == dB), approx(mr, mB / one)))]
+        elif op == "dimless_div":
+            P += [("(a/a)/b has the reciprocal dimension of b and magnitude 1/mag(b)", z3.And(z3.BoolVal(dr == neg), approx(mr, one / mB)))]
+        else:
+            rv_ = term(obs["r"][0])
+            P += [("(a/a)//b has the reciprocal dimension of b and a floored value", z3.And(z3.BoolVal(dr == neg), rv_ == z3.ToReal(z3.ToInt(rv_))))]
+        return P
     if op == "mul":
         P += [("dims(a*b)=dims(a)+dims(b)", dr == _addd(dA, dB, 1)), ("mag(a*b)~mag(a)*mag(b)", approx(mr, mA * mB)),
               ("a*b~b*a", z3.And(approx(mr, mag_of(*obs["comm"])), z3.BoolVal(dims_of(obs["comm"][1]) == dr))),
@@ -153,5 +187,5 @@ def props(cfg, T, obs):
 
 
 def finding_key(cfg, name):
-    sym = {"mul": "*", "div": "/", "fdiv": "//", "pow": "**", "self_div": "/self"}[cfg["op"]] + (" [Array.%s]" % cfg["arr"] if cfg.get("arr") else "")
+    sym = {"mul": "*", "div": "/", "fdiv": "//", "pow": "**", "self_div": "/self", "dimless_div": "(a/a)/", "dimless_fdiv": "(a/a)//", "dimless_mul": "(a/a)*", "div_dimless": "b/(a/a)"}[cfg["op"]] + (" FixedArray right" if cfg.get("fixed_right") else "") + (" [Array.%s]" % cfg["arr"] if cfg.get("arr") else "")
     return "%s %s %s :: %s" % (spec_str(cfg["A"]), sym, spec_str(cfg["B"]) if cfg["B"] else cfg.get("n"), name)
